@@ -278,3 +278,23 @@ func (s *Sim) CertWithProposal(c *lib.QuorumCertificate) *lib.QuorumCertificate 
 	}
 	return q
 }
+
+// ByzLeaderMsg signs a PRECOMMIT or COMMIT leader message of replica i for view `view` carrying certificate qc (block and
+// results stripped, as such messages travel) and queues it for every replica in `to`.
+func (s *Sim) ByzLeaderMsg(i int, phase lib.Phase, view VR, qc *lib.QuorumCertificate, to []int) []*Envelope {
+	n := s.Nodes[i]
+	c := proto.Clone(qc).(*lib.QuorumCertificate)
+	c.Block, c.Results = nil, nil
+	m := &bft.Message{
+		Header: &lib.View{NetworkId: n.B.NetworkId, ChainId: n.B.ChainId, Height: Height, RootHeight: view.Root, Round: view.Round, Phase: phase},
+		Qc:     c, RcBuildHeight: n.Root,
+	}
+	n.voteJust, n.curBranch = nil, ""
+	sm := n.sign(m)
+	n.Sent = nil
+	var out []*Envelope
+	for _, t := range to {
+		out = append(out, s.enqueue(i, t, sm))
+	}
+	return out
+}
